@@ -73,8 +73,18 @@ class Seq:
                     sig = self.signature(bad.get("spec", "")) if (self.signature and kind == "f") else None
                     groups.setdefault(sig, []).append(bad)
                 for sig, items in groups.items():
-                    for bad in items[:2]:   # shrink at most 2 per group
+                    kept = 0
+                    for n_seen, bad in enumerate(items):
+                        if kept >= 2 or n_seen >= 6:   # shrink at most 2 per group, look at no more than 6
+                            break
                         small = shrink(self.suite, bad, kind, self.pm, self.ps, seqdiff, os.path.join(wd, "shrink"))
+                        if small.get("unreproduced"):
+                            # seen once, never again when the very same case is re-run alone (5 more runs): recorded, and
+                            # reported only when it is not a one-off (see below)
+                            out.setdefault("unreproduced", []).append({"kind": kind, "source": label, "case": bad["header"], "ops": bad["ops"][:bad["idx"] + 1],
+                                                                       "first_bad_op": bad["idx"], "real": bad.get("real"), "model": bad.get("model"), "spec": bad.get("spec")})
+                            continue
+                        kept += 1
                         item = {"component": self.name, "suite": self.suite, "kind": "spec-violation" if kind == "f" else "correspondence",
                                 "source": label, "case": small["header"], "ops": small["ops"], "first_bad_op": small["idx"],
                                 "real": small.get("real"), "model_and_spec": small.get("model_and_spec"), "seed": ctx.seed}
@@ -86,6 +96,15 @@ class Seq:
                         out[kind + "_bad"].append(item)
                 out[kind + "_bad_total"] = out.get(kind + "_bad_total", 0) + len(lst)
         shutil.rmtree(os.path.join(wd, "shrink"), ignore_errors=True)
+        un = out.get("unreproduced", [])
+        if len(un) > 2:
+            # not a hiccup: the behaviour compared is nondeterministic — that breaks the tie
+            u = un[0]
+            out["k_bad"].append({"component": self.name, "suite": self.suite, "kind": "correspondence", "source": u["source"], "case": u["case"], "ops": u["ops"],
+                                 "first_bad_op": u["first_bad_op"], "real": u["real"], "model_and_spec": None, "seed": ctx.seed,
+                                 "what": "%d cases disagreed once and did not replay: nondeterministic behaviour under a sequential driver" % len(un)})
+        out["unreproduced_count"] = len(un)
+        out["unreproduced"] = un[:3]
         return out
     def replay(self, item, ctx, quiet=False):
         import sys
